@@ -42,6 +42,9 @@ type QueryPlanStep struct {
 	QueryString     string
 	QueryStringHash [32]byte
 	VariablesList   []string
+	// VariableDefaults holds the client-declared default values of the variables in VariablesList;
+	// the sub-query does not declare them, so they travel as values when the client supplies none
+	VariableDefaults map[string]interface{}
 
 	// tools
 	formatter *format.BufferedFormatter
@@ -81,7 +84,7 @@ func (s *QueryPlanStep) SetComputedValues(ctx *PlanningContext) *QueryPlanStep {
 		}
 	}
 
-	s = s.setVariablesList().setQuery()
+	s = s.setVariablesList().setVariableDefaults(ctx).setQuery()
 	for i, then := range s.Then {
 		s.Then[i] = then.SetComputedValues(ctx)
 	}
@@ -97,6 +100,53 @@ func (s *QueryPlanStep) setVariablesList() *QueryPlanStep {
 
 	s.VariablesList = args
 	return s
+}
+
+func (s *QueryPlanStep) setVariableDefaults(ctx *PlanningContext) *QueryPlanStep {
+	s.VariableDefaults = nil
+	for _, vd := range ctx.Operation.VariableDefinitions {
+		if vd.DefaultValue == nil || !lo.Contains(s.VariablesList, vd.Variable) {
+			continue
+		}
+		value, err := constValue(vd.DefaultValue)
+		if err != nil {
+			continue
+		}
+		if s.VariableDefaults == nil {
+			s.VariableDefaults = make(map[string]interface{})
+		}
+		s.VariableDefaults[vd.Variable] = value
+	}
+	return s
+}
+
+// constValue turns a constant value literal into what its JSON encoding should be
+// (an empty list literal stays an empty list, it does not become null)
+func constValue(v *ast.Value) (interface{}, error) {
+	switch v.Kind {
+	case ast.ListValue:
+		res := make([]interface{}, 0, len(v.Children))
+		for _, child := range v.Children {
+			value, err := constValue(child.Value)
+			if err != nil {
+				return nil, err
+			}
+			res = append(res, value)
+		}
+		return res, nil
+	case ast.ObjectValue:
+		res := make(map[string]interface{}, len(v.Children))
+		for _, child := range v.Children {
+			value, err := constValue(child.Value)
+			if err != nil {
+				return nil, err
+			}
+			res[child.Name] = value
+		}
+		return res, nil
+	default:
+		return v.Value(nil)
+	}
 }
 
 func (s *QueryPlanStep) setQuery() *QueryPlanStep {
